@@ -187,6 +187,14 @@ def run_batch(prop, verif_seed, tier, indices, jobs, chunk, sample_idx, wall_cap
     """Run the given run indices; returns (records sorted by index, budget_exhausted)."""
     ctx = multiprocessing.get_context("fork")
     chunks = [indices[i:i + chunk] for i in range(0, len(indices), chunk)]
+    # The chunks are worked through in a fixed low-discrepancy order (golden-ratio walk), not
+    # front to back: a wall budget that ends the batch early (slow or busy machine) then still
+    # leaves a mix of every region of the index space (exhaustive prefixes, fixed probe histories,
+    # seeded histories) instead of the first region only.  The order is a function of the number
+    # of chunks alone, so the explored set stays a function of (seed, tier, count).
+    chunks = [chunks[c] for c in sorted(range(len(chunks)),
+                                        key=lambda c: (c * 0.6180339887498949) % 1.0)]
+    order = [i for ch in chunks for i in ch]
     records: list[dict] = []
     t0 = time.monotonic()
     exhausted = False
@@ -241,13 +249,14 @@ def run_batch(prop, verif_seed, tier, indices, jobs, chunk, sample_idx, wall_cap
         raise
     pool.shutdown(wait=True)
     records.sort(key=lambda r: r["index"])
-    # keep a contiguous prefix only, so the explored set is a function of (seed, count)
+    # keep a contiguous prefix (of the fixed order) only, so the explored set is a function of
+    # (seed, count)
     if exhausted:
         have = {r["index"] for r in records}
         n = 0
-        while n < len(indices) and indices[n] in have:
+        while n < len(order) and order[n] in have:
             n += 1
-        keep = set(indices[:n])
+        keep = set(order[:n])
         records = [r for r in records if r["index"] in keep]
     return records, exhausted
 
@@ -643,7 +652,10 @@ def write_evidence(mod, prop, verif_seed, tier, records, exhausted, batch_s, wal
         "samples": samples,
         "runs_per_hour": round(len(records) / max(batch_s, 1e-9) * 3600),
         "seeds": {"VERIF_SEED": verif_seed, "run_seed": "sha256(VERIF_SEED:property:index)",
-                  "first_index": 0, "last_index": records[-1]["index"]},
+                  "first_index": records[0]["index"], "last_index": records[-1]["index"],
+                  "order": "chunks of consecutive run indices, worked through in a fixed "
+                           "golden-ratio order; when the wall budget ends the batch early the "
+                           "explored set is a prefix of that order (budget_exhausted says so)"},
         "simulated_time_covered": {k: round(v, 6) for k, v in sorted(sim_time.items())},
         "fault_kinds": faults,
         "distinct_interleavings": len(inter),
